@@ -2194,3 +2194,23 @@ _UNK_TABLE = """        unknown = self._unknown
 variant('b-unknown-slot-table-channel-row-copied', ['C19'], RRT, _UNK_OLD, _UNK_TABLE % 'stream',
         ('C19.b', 'routing table row / channel'))
 variant('t-unknown-slot-as-a-table', ['C19'], RRT, _UNK_OLD, _UNK_TABLE % 'channel', kind='twin')
+
+# C12.m an empty message is not the end
+variant('b-quart-feeder-ends-on-empty-message', ['C12'], 'rsocket/transports/quart_websocket.py',
+        "                data = await websocket.receive()\n",
+        "                data = await websocket.receive()\n\n                if not data:\n                    break\n",
+        ('C12.m', 'TransportQuartWebsocket'))
+variant('t-quart-feeder-skips-empty-messages', ['C12'], 'rsocket/transports/quart_websocket.py',
+        "                data = await websocket.receive()\n",
+        "                data = await websocket.receive()\n\n                if not data:\n                    continue\n",
+        kind='twin')
+
+# C13.h the cursor moves only by the successor step
+variant('b-finish-steps-the-cursor-back', ['C13'], 'rsocket/stream_control.py',
+        "        self._streams.pop(stream_id, None)\n",
+        "        if self._streams.pop(stream_id, None) is None and stream_id == self._current_stream_id:\n            self._current_stream_id = (stream_id - 2) & self._maximum_stream_id\n",
+        ('C13.h', 'StreamControl.finish_stream'))
+variant('t-successor-through-two-helpers', ['C13'], 'rsocket/stream_control.py',
+        "    def _increment_stream_id(self):\n        self._current_stream_id = (self._current_stream_id + 2) & self._maximum_stream_id",
+        "    def _increment_stream_id(self):\n        self._step()\n\n    def _step(self):\n        self._current_stream_id = (self._current_stream_id + 2) & self._maximum_stream_id",
+        kind='twin')
